@@ -26,6 +26,11 @@ def observe(spec, inputs):
         if spec.get("layout") == "T":
             base = numpy.ascontiguousarray(base.T).T
         X = n.pnd.integer_ndarray(base)
+        if spec.get("prior") == "colswap":
+            for j in range(base.shape[1]):
+                Y = base.copy()
+                Y[0, j], Y[1, j] = base[1, j], base[0, j]
+                n.pnd.integer_ndarray(Y).ndint_compress(method=spec["method"], axis=spec["axis"])
         if spec.get("before"):
             X.ndint_compress(method=spec["before"], axis=spec["axis"])
         res = numpy.asarray(X.ndint_compress(method=spec["method"], axis=spec["axis"]))
